@@ -420,6 +420,11 @@ def r4(ctx):
     facts = ctx.facts()
     helpers = sorted({c['callee'] for c in s.calls if c['callee'] in facts.bodies and not (facts.fns.get(c['callee']) or {}).get('pub', True)
                       and any((facts.fns.get(c['callee']) or {}).get('inputs', [''])[:1] == [t_] for t_ in ('&mut movegen::movegen::MoveGen',))})
+    local_items = sorted({c['callee'] for c in s.calls if c['callee'] and (NEXT + '::') in c['callee'] and '::{closure' not in c['callee']})
+    if local_items:
+        # the decision is staged through a type declared inside next() (`enum State { Done, Promotion, Normal }` compared with ==)
+        ctx.inconclusive(R, 'next() stages its decision through a function-local type (%s): the decision tree is not decoded' % local_items[0].split(' as ')[0].lstrip('<'))
+        return
     if helpers:
         # part of next() lives in a private `&mut self` helper (`fn next_promotion(&mut self) -> ChessMove`): the decision tree
         # and the state update are then spread over two bodies, which this rule does not join
